@@ -156,6 +156,55 @@ def constant_cases(rng, tier, op='encode'):
     return cs
 
 
+def limit_cases(rng, tier, op='encode'):
+    """inputs at the upper limit of what can be encoded at all: for the largest symbol of the list (and, thorough, for
+    lists topped by each of the other large symbols) and each scheme, a run whose encodation needs cap-1, cap, cap+1 ..
+    codewords -- where the early size gates, the Base256 length limit (1555 bytes) and the 'too much data' refusals
+    live -- without and with a codeword in front (FNC1 start, a digit pair, an ECI).  Deterministic."""
+    cs = []
+    cp = caps()
+
+    def add(d, modes, wl, cat, fnc1=False, eci=None):
+        line = encode_line(d, wl, modes, False, fnc1, eci).replace('encode', op, 1)
+        cs.append({'line': line, 'cat': cat, 'cfg': dict(data=d, wl=wl, modes=modes, macros=False, fnc1=fnc1, eci=eci)})
+    tops = sorted(range(48), key=lambda i: -cp[i])
+    tops = tops[:1] if tier == 'quick' else tops[:5]
+    deltas = (-1, 0, 1) if tier == 'quick' else (-3, -2, -1, 0, 1, 2, 3)
+    for t in tops:
+        cap = cp[t]
+        lists = [[i for i in ALL48 if cp[i] <= cap]] + ([[t]] if tier != 'quick' else [])
+        for dl in deltas:
+            n = cap + dl
+            runs = [
+                ([48 + (k % 10) for k in range(2 * n)], 1),                               # digit pairs
+                ([rng.choice(ALPH['shift2']) for _ in range(n)], 1),                        # one ASCII codeword each
+                ([rng.choice(ALPH['high']) for _ in range(max(n - 3, 0))], 32),             # Base256, 2-codeword length
+                ([rng.choice(ALPH['c40'][:26]) for _ in range(3 * ((n - 1) // 2))], 2),     # C40 triples
+                ([rng.choice(ALPH['text'][:26]) for _ in range(3 * ((n - 1) // 2))], 4),    # Text triples
+                ([rng.choice(ALPH['x12'][4:]) for _ in range(3 * ((n - 1) // 2))], 8),      # X12 triples
+                ([rng.choice(ALPH['edifact'][33:59]) for _ in range(4 * ((n - 1) // 3))], 16),  # EDIFACT quadruples
+            ]
+            for d, m in runs:
+                for wl in lists:
+                    for modes in (63, m) + ((m | 1,) if m != 1 and tier != 'quick' else ()):
+                        add(d, modes, wl, 'limit')
+                        add(d, modes, wl, 'limit', fnc1=True)
+                        if tier != 'quick' or m == 32:
+                            add([49, 50] + d, modes, wl, 'limit')
+                            add(d, modes, wl, 'limit', eci=5)
+    # the Base256 run-length limit itself, whatever the symbol
+    for L in (1554, 1555, 1556, 1557):
+        run = [rng.choice(ALPH['high']) for _ in range(L)]
+        for modes in (63, 32, 33):
+            for wl in (ALL48, DEFAULT):
+                add(run, modes, wl, 'limit')
+                add(run, modes, wl, 'limit', fnc1=True)
+                add([49, 50] + run, modes, wl, 'limit')
+                add(run + [65], modes, wl, 'limit')
+                add(run, modes, wl, 'limit', eci=5)
+    return cs
+
+
 def prefix_cases(rng, tier, op='encode'):
     """every non-empty mode subset combined with each way of writing a codeword before the data (FNC1 start, ECI, Macro
     05/06 header) and with none, on a few short inputs of each alphabet: the configurations in which the planner starts
